@@ -8,7 +8,9 @@ package c04
 
 import (
 	"bytes"
+	"context"
 	"encoding/binary"
+	"errors"
 	"fmt"
 	"runtime"
 	"time"
@@ -46,9 +48,20 @@ type scenario struct {
 	SecondCut  int
 	SecondRST  bool
 	SecondIdle time.Duration
-	Frames     []fspec
-	Cuts       []int // offsets into the stream, ascending, unique, in (0, len)
-	Gaps       []time.Duration
+	// SecondWedge (clean streams only): the first generation is ended by the APPLICATION instead —
+	// Close while a data handler is blocked past the close timeout (Close reports the timeout and
+	// abandons the receive goroutine), then Open again; the second generation's frames are sent once the
+	// handler has returned, so whatever the abandoned goroutine still does happens beside the new stream
+	SecondWedge bool
+	// FinBehind: no barrier; the peer closes its direction right behind the last byte of the stream.
+	// EOFWithData: the simulated socket then hands the last bytes to the reader together with io.EOF
+	// (legal for a net.Conn supplied through a custom dialer/listener). Either way every complete
+	// frame of the stream is delivered before the link goes down.
+	FinBehind   bool
+	EOFWithData bool
+	Frames      []fspec
+	Cuts        []int // offsets into the stream, ascending, unique, in (0, len)
+	Gaps        []time.Duration
 }
 
 type holderObs struct {
@@ -92,13 +105,15 @@ type harness struct {
 	obsPending int
 
 	// second generation
-	g2Stage  int
-	g2EndAt  time.Duration
-	c2       *refhsms.Conn
-	g2OpenAt time.Duration
-	g2SentAt time.Duration
-	g2Frame  fspec
-	deliv2   []*delivery
+	reopened   bool
+	wedgeState int // 0 none, 1 the data handler is blocked, 2 it has returned
+	g2Stage    int
+	g2EndAt    time.Duration
+	c2         *refhsms.Conn
+	g2OpenAt   time.Duration
+	g2SentAt   time.Duration
+	g2Frame    fspec
+	deliv2     []*delivery
 }
 
 func validBody(t *core.Tape, i int) []byte {
@@ -145,6 +160,11 @@ func genScenario(t *core.Tape) scenario {
 		sc.SecondCut = []int{1, 2, 4, 6, 13}[t.Choose("scn", 5)]
 		sc.SecondRST = t.Choose("scn", 2) == 1
 		sc.SecondIdle = sc.T8 + []time.Duration{30 * time.Millisecond, 2 * sc.T8}[t.Choose("scn", 2)]
+		sc.SecondWedge = t.Choose("scn", 3) == 0
+	}
+	if sc.Second == 0 && t.Choose("scn", 4) == 0 {
+		sc.FinBehind = true
+		sc.EOFWithData = t.Choose("scn", 3) != 0
 	}
 	n := 1 + t.Choose("scn", 10)
 	sess := uint16(0xFFFF)
@@ -265,6 +285,7 @@ func Build(config string) core.BuildFunc {
 		h.r = rig.New(w, rig.Opts{Active: sc.Active, Equip: sc.Equip, T8: t8, TraceTraffic: sc.Trace, T3: 600 * time.Second, T6: 600 * time.Second, T7: 600 * time.Second,
 			T5: t5, BackoffInit: b0, BackoffMult: 1, NoDataHandlers: true, CloseTimeout: 2 * time.Second})
 		r := h.r
+		r.N.EOFWithData = sc.EOFWithData
 		r.P.AutoSelectRsp = 0
 		r.P.AutoLinktest = true
 		r.N.ShortRead = func(avail int) int {
@@ -370,7 +391,7 @@ func (h *harness) describe() map[string]any {
 		gaps = append(gaps, g.String())
 	}
 
-	return map[string]any{"active": sc.Active, "equip": sc.Equip, "T8": sc.T8.String(), "builtWithT8": sc.BuiltT8.String(), "traceTraffic": sc.Trace, "second": sc.Second != 0, "secondIdle": sc.SecondIdle.String(), "secondCut": sc.SecondCut, "secondRST": sc.SecondRST, "frames": kinds, "cuts": sc.Cuts, "gaps": gaps}
+	return map[string]any{"active": sc.Active, "equip": sc.Equip, "T8": sc.T8.String(), "builtWithT8": sc.BuiltT8.String(), "traceTraffic": sc.Trace, "finBehind": sc.FinBehind, "eofWithData": sc.EOFWithData, "second": sc.Second != 0, "secondIdle": sc.SecondIdle.String(), "secondCut": sc.SecondCut, "secondRST": sc.SecondRST, "secondByAppCloseWithWedgedHandler": sc.SecondWedge, "frames": kinds, "cuts": sc.Cuts, "gaps": gaps}
 }
 
 // wellFormed is the reference acceptance rule for a complete on-wire frame.
@@ -555,6 +576,16 @@ func head(b []byte) []byte {
 // goroutines racing their first calls — ask for the body error.
 func (h *harness) onData(hi int, m *hsms.DataMessage) {
 	w := h.w
+	if hb := m.HeaderBytes(); refhsms.Unpack(hb[:]).Sys == wedgeSys {
+		if hi == 0 {
+			core.Sleep(3 * 2 * time.Second) // three close timeouts
+			h.wedgeState = 2
+			w.Probe("abandoned_receive_goroutine_resumes_beside_the_new_stream")
+			w.After(20*time.Millisecond, "after-wedge", func() {})
+		}
+
+		return
+	}
 	d := &delivery{Handler: hi, Hdr: m.HeaderBytes(), Body: m.AppendBodyTo(nil), At: w.Now()}
 	if h.g2Stage >= 3 {
 		h.deliv2 = append(h.deliv2, d)
@@ -606,7 +637,7 @@ func (h *harness) transmit() {
 	// barrier: a Linktest.req behind everything (only meaningful when no fatal event happens)
 	h.barrier = 0x7FFFFFF1
 	last := sc.Frames[len(sc.Frames)-1]
-	if !last.Fatal {
+	if !last.Fatal && !sc.FinBehind {
 		h.stream = append(h.stream, refhsms.Frame(refhsms.Header{Session: 0xFFFF, SType: refhsms.STLinktestReq, Sys: h.barrier}, nil)...)
 	}
 	gaps := append([]time.Duration{time.Millisecond}, sc.Gaps...)
@@ -674,6 +705,10 @@ func (h *harness) transmit() {
 		h.memBefore = ms.TotalAlloc
 	}
 	h.c.SendRawCut(h.stream, refhsms.Header{}, nil, true, sc.Cuts, gaps)
+	if sc.FinBehind {
+		h.w.Fault("peer-closes-right-behind-the-last-frame")
+		h.c.L.FIN()
+	}
 }
 
 func (h *harness) hasBarrier() bool {
@@ -704,7 +739,10 @@ func (h *harness) done() bool {
 	return h.hasBarrier() || !h.c.Alive()
 }
 
-const barrier2 = 0x7FFFFFF2
+const (
+	barrier2 = 0x7FFFFFF2
+	wedgeSys = 0x2FFFE
+)
 
 // second drives the second generation (monitor context). Stages: 0 wait for the first generation to
 // end inside a frame; 1 wait for the new connection; 2 stay silent for SecondIdle, then start the
@@ -716,6 +754,36 @@ func (h *harness) second() {
 	case 0:
 		if h.fatalKind == "" {
 			if !h.hasBarrier() || !h.c.Alive() {
+				return
+			}
+			if sc.SecondWedge {
+				h.wedgeState = 1
+				w.Fault("data-handler-blocks-across-close-and-reopen")
+				h.c.SendFrame(refhsms.DataHeader(0xFFFF, 1, 1, false, wedgeSys), refhsms.ASCII("wedge"))
+				w.Go("app-close-reopen", func() {
+					core.Sleep(5 * time.Millisecond)
+					err := r.C.Close()
+					if err != nil && !errors.Is(err, hsms.ErrCloseTimeout) {
+						w.Fail("HARNESS", "Close: %v", err)
+
+						return
+					}
+					if err := r.C.Open(context.Background(), hsms.OpenBackground); err != nil {
+						w.Fail("HARNESS", "Open after Close: %v", err)
+					}
+					h.reopened = true
+				})
+				r.P.AutoSelectRsp = -1
+				h.g2EndAt = w.Now()
+				h.g2Stage = 1
+				var tick func()
+				tick = func() {
+					if h.g2Stage == 1 || h.wedgeState == 1 {
+						w.After(5*time.Millisecond, "second-connect-tick", tick)
+					}
+				}
+				w.After(20*time.Millisecond, "second-connect-tick", tick)
+
 				return
 			}
 			// a clean stream: the peer starts one more frame and goes away inside it
@@ -744,6 +812,9 @@ func (h *harness) second() {
 		}
 		w.After(20*time.Millisecond, "second-connect-tick", tick)
 	case 1:
+		if sc.SecondWedge && h.fatalKind == "" && !h.reopened {
+			return
+		}
 		if sc.Active {
 			if c := r.P.Last(); c != nil && c != h.c {
 				h.c2 = c
@@ -758,7 +829,7 @@ func (h *harness) second() {
 			w.After(sc.SecondIdle, "second-idle-over", func() {})
 		}
 	case 2:
-		if w.Now() < h.g2OpenAt+sc.SecondIdle {
+		if w.Now() < h.g2OpenAt+sc.SecondIdle || h.wedgeState == 1 {
 			return
 		}
 		if sc.Active {
@@ -924,6 +995,17 @@ func (h *harness) finalFirst(reason string) {
 	c := h.c
 	switch h.fatalKind {
 	case "":
+		if sc.FinBehind {
+			// the peer closed behind the stream: the deliveries (checked above) are the whole verdict; the
+			// library then closes its end, and answers still queued may be discarded with it
+			if c.Alive() {
+				w.Fail("NOT_DROPPED", "the peer closed its direction behind the stream at %v but the library still holds the connection at %v%s", h.sentAt, w.Now(), h.ctx())
+			} else {
+				w.Probe("stream_delivered_before_peer_close_took_effect")
+			}
+
+			break
+		}
 		if sc.Second != 0 && h.g2Stage >= 1 {
 			// the stream was answered up to its barrier (that is what started the second leg); the peer
 			// then closed the connection itself
